@@ -19,6 +19,11 @@
   `load` rebuilds into an arena of cells through `set`/`append` (in-place dict update or insertion at the end,
   parent links written by `_set_parent`), `reify` reads the tree back from the arena.
   A Python exception (KeyError / IndexError / AttributeError) is the outcome `none`.
+
+  Also modelled here: the `_hash` cache field of an Expression and its invalidation walk at the head of `set` / `append`
+  (`clearUp`), `Expression.__deepcopy__` (`copyLoopWith`: explicit stack, children attached through `set` / `append`,
+  nested copies of `_type` and of Expressions inside `_meta`, `_hash` carried over), `Expression.__reduce__` (`reduce` /
+  `unpickle`), and the JSON view of a payload (`Py`, `JsonValue`, `Payload.toPy`).
 -/
 namespace SqlglotModel.Serde
 
